@@ -517,7 +517,7 @@ func resolveLit(fn *FuncInfo, e ast.Expr) *ast.FuncLit {
 }
 
 func init() {
-	register(&Rule{ID: "R12.filters-never-stop", Props: []string{"C12", "C11"}, Floor: 3,
+	register(&Rule{ID: "R12.filters-never-stop", Props: []string{"C12", "C11", "C13"}, Floor: 3,
 		Text: "a filter decides whether an object is reported, never whether the iteration continues: on every non-error return, scanWriter.globMatch and scanWriter.testObject report keepGoing = true (constant true, or a variable whose every definition is true or such a result), and scanWriter.pushObject stops the iteration only with an error, when numberItems reached the limit, or by the COUNT comparison count < limit",
 		Run:  ruleFiltersNeverStop})
 }
